@@ -233,48 +233,66 @@ def decodeS (o : Outcome Msg) : String :=
   | .ok m =>
     joinSp (s!"ok H:{hex m.header.version}:{hex m.header.vendorId}:{hex m.header.guidPrefix}" :: m.subs.map subS)
 
-/-- `rt` / `rtfix`: encode, then decode with the decoder as it is / with fixes/D5.patch -/
-def rtStep (fixed : Bool) (rest : List String) : String :=
-  match msg? rest with
-  | none => "bad-op"
-  | some (.ok m) =>
-    let bs := encode m
-    match decodeG fixed bs with
-    | .panic => "PANIC"
-    | o => s!"{hex bs} {decodeS o}"
-  | some _ => "PANIC"
+/-- `op@<letters>` selects the tree the line is answered for: `5` = D5 fix (bdfece3), `e` = fixes/D-wire-3.patch,
+    `a` = fixes/D-wire-4.patch, `m` = fixes/D-wire-2.patch; no suffix = the tree of the first delivery -/
+def cfgOf (letters : String) : Option Cfg :=
+  let cs := letters.toList
+  if cs.all (fun ch => ch == '5' || ch == 'e' || ch == 'a' || ch == 'm') then
+    some { d5 := cs.contains '5', ext := cs.contains 'e', snchk := cs.contains 'a', mflag := cs.contains 'm' }
+  else none
+
+def splitOp (tok : String) : Option (String × Cfg) :=
+  match tok.splitOn "@" with
+  | [op] => some (op, Cfg.orig)
+  | [op, letters] => match cfgOf letters with
+    | some c => some (op, c)
+    | none => none
+  | _ => none
 
 /-- stateless engine: one output line per input line -/
 def step (line : String) : String :=
   match toks line with
-  | "enc" :: rest =>
-    match msg? rest with
+  | [] => "bad-op"
+  | t :: rest =>
+    match splitOp t with
     | none => "bad-op"
-    | some (.ok m) => hex (encode m)
-    | some _ => "PANIC"
-  | "rt" :: rest => rtStep false rest
-  | "rtfix" :: rest => rtStep true rest
-  | ["sub", s] =>
-    match sub? s with
-    | none => "bad-op"
-    | some (.ok s) => hex (subE true s)
-    | some _ => "PANIC"
-  | ["dec", h] =>
-    match unhex? h with
-    | none => "bad-op"
-    | some bs => decodeS (decode bs)
-  | "decx" :: h :: _ =>
-    match unhex? h with
-    | none => "bad-op"
-    | some bs => decodeS (decode bs)
-  | "decxfix" :: h :: _ =>
-    match unhex? h with
-    | none => "bad-op"
-    | some bs => decodeS (decodeFixed bs)
-  | ["decfix", h] =>
-    match unhex? h with
-    | none => "bad-op"
-    | some bs => decodeS (decodeFixed bs)
-  | _ => "bad-op"
+    | some (op, c) =>
+      if op == "enc" then
+        match msg? rest with
+        | none => "bad-op"
+        | some (.ok m) => hex (encodeC c m)
+        | some _ => "PANIC"
+      else if op == "rt" then
+        match msg? rest with
+        | none => "bad-op"
+        | some (.ok m) =>
+          let bs := encodeC c m
+          match decodeG c bs with
+          | .panic => "PANIC"
+          | o => s!"{hex bs} {decodeS o}"
+        | some _ => "PANIC"
+      else if op == "sub" then
+        match rest with
+        | [s] =>
+          match sub? s with
+          | none => "bad-op"
+          | some (.ok s) => hex (if c.mflag then subE true s else subEOld true s)
+          | some _ => "PANIC"
+        | _ => "bad-op"
+      else if op == "dec" then
+        match rest with
+        | [h] =>
+          match unhex? h with
+          | none => "bad-op"
+          | some bs => decodeS (decodeG c bs)
+        | _ => "bad-op"
+      else if op == "decx" then
+        match rest with
+        | h :: _ =>
+          match unhex? h with
+          | none => "bad-op"
+          | some bs => decodeS (decodeG c bs)
+        | _ => "bad-op"
+      else "bad-op"
 
 end DustVerif.Driver.WireEngine
